@@ -32,6 +32,16 @@ var (
 	scP2WPKH   = mustHex("0014751e76e8199196d454941c45d1b3a323f1433bd6") // starts with 0x00
 	scPush6a   = []byte{0x01, 0x6a}                                      // 0x6a as data, not as first opcode
 	scOther    = mustHex("a914b472a266d0bd89c13706a4132ccfb16f7c3b9fcb87")
+	// scripts that do not parse (truncated pushes): BIP158 does not care
+	scTrunc1 = []byte{0x4c}             // OP_PUSHDATA1 without length
+	scTrunc2 = []byte{0x02, 0x01}       // push 2, one byte present
+	scTrunc3 = []byte{0x4e, 0xff, 0xff} // OP_PUSHDATA4 with half a length
+	scZero   = []byte{0x00}             // a single OP_0
+	// at and one past the 10000-byte script size limit, first byte OP_TRUE
+	sc10000 = append([]byte{0x51}, bytes.Repeat([]byte{0x61}, 9999)...)
+	sc10001 = append([]byte{0x51}, bytes.Repeat([]byte{0x61}, 10000)...)
+	// long and starting with OP_RETURN: excluded as an output, included as a prevout
+	scLongOpRet = append([]byte{0x6a}, bytes.Repeat([]byte{0x61}, 10000)...)
 )
 
 // basicShapes is the alphabet of transaction shapes (lists of output scripts).
@@ -42,7 +52,15 @@ var basicShapes = [][][]byte{
 	{scP2PKHa, scP2PKHa, scP2PKHb}, // duplicates
 	{scP2WPKH, scPush6a},           // leading 0x00; 0x6a only as data
 	{},                             // no outputs at all
+	// --- shapes 6..8: script kinds that txscript calls "unspendable" but BIP158 keeps
+	{scTrunc1, scTrunc2, scTrunc3, scZero},
+	{sc10000, sc10001},
+	{scLongOpRet, scTrunc2},
 }
+
+// basicCoreShapes is the number of leading shapes that are also enumerated one
+// transaction deeper than the full alphabet.
+const basicCoreShapes = 6
 
 // basicPrevs is the alphabet of spent-prevout script lists.
 var basicPrevs = [][][]byte{
@@ -50,6 +68,8 @@ var basicPrevs = [][][]byte{
 	{scP2PKHa},                      // duplicate of an output script
 	{scEmpty, scOpRetDat, scP2PKHb}, // empty excluded; OP_RETURN-prefixed prevout script is NOT excluded by BIP158
 	{scOther, scOther, scEmpty},     // new script, twice
+	{scTrunc1, scTrunc3, scZero, scLongOpRet}, // unparseable / OP_0 / long OP_RETURN prevouts: all included
+	{sc10001, sc10000, scTrunc2},              // oversized prevout scripts: included
 }
 
 // BasicCase: a block whose i-th transaction has shape Shapes[i], and prevout list Prev.
@@ -98,7 +118,7 @@ func runBasic(c *BasicCase) (fs []finding) {
 	want := refgcs.BasicFilter(bh, elems)
 	got, err := f.NBytes()
 	if err != nil || !bytes.Equal(got, want) {
-		fail("basic/filter-bytes", "BuildBasicFilter -> %x (N=%d), BIP158 filter over the %d-element set is %x", got, f.N(), len(elems), want)
+		fail("basic/filter-bytes", "BuildBasicFilter -> %x (N=%d), BIP158 filter over the %d-element set (N=%d) is %x", got, f.N(), len(elems), len(elems), want)
 	}
 	if f.P() != 19 {
 		fail("basic/filter-params", "P=%d, want 19", f.P())
@@ -111,7 +131,7 @@ func runBasic(c *BasicCase) (fs []finding) {
 	for i, el := range elems {
 		ok, err := f.Match(key, el)
 		if err != nil || !ok {
-			fail("basic/false-negative", "filter does not match element %d (%x) of the block: %v %v", i, el, ok, err)
+			fail("basic/false-negative", "filter does not match element %d (%d bytes, starts %x) of the block: %v %v", i, len(el), el[:min(len(el), 8)], ok, err)
 		}
 	}
 	if len(elems) > 0 {
@@ -182,8 +202,14 @@ func seqs(maxLen, alpha int) [][]int {
 }
 
 func checkBasic(r *ev.Run, bounds map[string]interface{}) {
-	maxTx := r.Pick(5, 6)
-	sq := seqs(maxTx, len(basicShapes))
+	maxTx := r.Pick(5, 6)    // over the first basicCoreShapes shapes
+	maxTxAll := r.Pick(4, 5) // over all shapes
+	sq := seqs(maxTxAll, len(basicShapes))
+	for _, s := range seqs(maxTx, basicCoreShapes) {
+		if len(s) > maxTxAll {
+			sq = append(sq, s)
+		}
+	}
 	var cases []*Case
 	for _, s := range sq {
 		for p := range basicPrevs {
@@ -202,9 +228,9 @@ func checkBasic(r *ev.Run, bounds map[string]interface{}) {
 	col.report(r, "basic")
 	r.Add("basic_filter_cases", int64(len(cases)))
 	bounds["basic_filter"] = map[string]interface{}{
-		"txs_per_block":   fmt.Sprintf("1..%d", maxTx),
-		"tx_shapes":       []string{"[OP_TRUE]", "[empty, OP_RETURN]", "[OP_RETURN data, P2PKH a]", "[P2PKH a, P2PKH a, P2PKH b]", "[P2WPKH, push(0x6a)]", "[]"},
-		"prevout_lists":   []string{"none", "[P2PKH a]", "[empty, OP_RETURN data, P2PKH b]", "[P2SH, P2SH, empty]"},
+		"txs_per_block":   fmt.Sprintf("1..%d over all 9 shapes, %d over the first 6 shapes", maxTxAll, maxTx),
+		"tx_shapes":       []string{"[OP_TRUE]", "[empty, OP_RETURN]", "[OP_RETURN data, P2PKH a]", "[P2PKH a, P2PKH a, P2PKH b]", "[P2WPKH, push(0x6a)]", "[]", "[4c, 0201, 4effff, 00]", "[10000-byte, 10001-byte]", "[OP_RETURN+10000 bytes, 0201]"},
+		"prevout_lists":   []string{"none", "[P2PKH a]", "[empty, OP_RETURN data, P2PKH b]", "[P2SH, P2SH, empty]", "[4c, 4effff, 00, OP_RETURN+10000 bytes]", "[10001-byte, 10000-byte, 0201]"},
 		"sequences":       len(sq),
 		"header_chaining": "prev in {0, dSHA(salt)} x 3 links",
 	}
@@ -254,6 +280,13 @@ func runCfIndex(c *CfIndexCase) (fs []finding) {
 		outs := []*wire.TxOut{{Value: sub - 1000, PkScript: cbScripts[(i+c.Variant)%len(cbScripts)]}, {Value: 1000, PkScript: lab.OpTrue}}
 		if i == 1 {
 			outs = append(outs, &wire.TxOut{Value: 0, PkScript: scOpRetDat})
+		}
+		if i == 2 {
+			// outputs that can never be spent but that BIP158 still puts into the filter
+			for _, s := range [][]byte{scTrunc1, scTrunc2, scTrunc3, scZero, sc10000, sc10001} {
+				outs = append(outs, &wire.TxOut{Value: 0, PkScript: s})
+			}
+			outs = append(outs, &wire.TxOut{Value: 0, PkScript: scLongOpRet})
 		}
 		b := lab.Build(p, parent, lab.BOpt{Tag: uint32(700 + i + 10*c.Variant), CoinbaseOuts: outs})
 		chain = append(chain, blkInfo{b: b})
@@ -338,7 +371,7 @@ func checkCfIndex(r *ev.Run, bounds map[string]interface{}) {
 	}
 	col.report(r, "cfindex")
 	r.Add("cfindex_chains", int64(nv))
-	bounds["cfindex"] = map[string]interface{}{"chains": nv, "blocks_per_chain": "genesis + 7 (coinbase scripts rotated per variant; spends in blocks 5 and 6; OP_RETURN and empty outputs)"}
+	bounds["cfindex"] = map[string]interface{}{"chains": nv, "blocks_per_chain": "genesis + 7 (coinbase scripts rotated per variant; spends in blocks 5 and 6; OP_RETURN, empty, truncated-push, OP_0, 10000/10001-byte and long OP_RETURN outputs)"}
 }
 
 var _ = chaincfg.MainNetParams
